@@ -951,6 +951,14 @@ func (cx *evalCtx) call(x *ast.CallExpr) (TV, error) {
 			}
 			mi := r.mapHeaps(cx.st, mt)
 			return TV{and(not(eq(as[0].S, "0")), app("select", app("select", mi.dom, as[0].S), as[1].S)), SBool, types.Typ[types.Bool]}, nil
+		case "ctxDone":
+			// ctxDone(ctx): ghost - a receive from ctx.Done() has been selected (the function has observed the end of ctx)
+			as, err := cx.args(x.Args)
+			if err != nil {
+				return TV{}, err
+			}
+			name := r.eng.regHeap("GH_ctxdone", "(Array Iface Bool)", nil)
+			return TV{app("select", r.heapGet(cx.st, name), as[0].S), SBool, types.Typ[types.Bool]}, nil
 		case "fresh":
 			// fresh(x): the object x was allocated during the call (not reachable from the pre-state)
 			as, err := cx.args(x.Args)
